@@ -183,7 +183,7 @@ class HedGroup:
         # Equal tags (letter case is not significant) must end up next to each other.
         tag_list.sort(key=lambda x: (str(x[0]).casefold(), str(x[0])))
         # Order groups by their sorted contents, so equal groups are adjacent however their members were written.
-        group_list.sort(key=lambda x: (self._sorted_list_as_string(x[1]), str(x[0])))
+        group_list.sort(key=lambda x: (self._sorted_list_as_string(x[1]).casefold(), str(x[0])))
         output_list = tag_list + group_list
         if update_self:
             self.children = [x[0] for x in output_list]
